@@ -62,6 +62,16 @@ type Map struct {
 	symKeys int // number of keys that are not natively hashable/concrete
 }
 
+// Chan models a buffered channel in the fork-join pattern (see Interp.recv): goroutines
+// run to completion when they are started, what they send is queued, and the order in
+// which the results of DIFFERENT goroutines are received is a symbolic permutation.
+type Chan struct {
+	cap     int
+	buf     []Value
+	senders []int // goroutine id of each queued value (0 = the spawning code itself)
+	settled int   // buf[:settled] has been put in its (symbolic) order already
+}
+
 type Iter struct {
 	m    *Map
 	keys []Value
@@ -272,7 +282,7 @@ func zero(t types.Type) Value {
 		}
 		return tt
 	case *types.Chan:
-		return (*Value)(nil)
+		return (*Chan)(nil)
 	}
 	panic(fmt.Sprintf("zero: unsupported type %s (%T)", t, t.Underlying()))
 }
